@@ -28,7 +28,7 @@ RE_PUSH_LITERAL = re.compile(r"PUSH_LITERAL")
 RE_RANGE_OP = re.compile(r"\.\.")
 RE_RULE_DOC = re.compile(r"///")
 RE_TAG = re.compile(r"#[_a-zA-Z][_a-zA-Z0-9]*")
-RE_WHITESPACE = re.compile(r"[ \t\n\r]+")
+RE_WHITESPACE = re.compile(r"(?:[ \t\n]|\r\n)+")
 RE_LINE_COMMENT = re.compile(r"//(?!/|!).*")
 RE_BLOCK_COMMENT = re.compile(r"/\*(?:[^*/]|\*(?!/)|/(?!\*)|(?R))*\*/")
 
